@@ -8,4 +8,6 @@ cargo build --release --offline
 # pre-build the quick tier of the generated Rust harness (cached by content; the checks rebuild
 # only what a change in /repo alters)
 ./target/release/pdlmc build-rust quick
+# the two small harnesses of C11 (d) (CLI text vs #[pdl_inline]); same content-keyed caching
+./target/release/pdlmc build-derive quick
 echo "setup ok"
